@@ -11,6 +11,7 @@ import (
 	"net"
 	"net/netip"
 	"time"
+	"verif/core"
 
 	"github.com/mycoria/mycoria/api/httpapi"
 	"github.com/mycoria/mycoria/api/netstack"
@@ -263,7 +264,7 @@ type Result struct {
 // the real switch and router handlers on it synchronously.
 func (vn *Net) Inject(n *Node, recv *VLink, data []byte) Result {
 	var res Result
-	ps := n.Builder.GetPooledSlice(len(data) + peering.FrameOffset + peering.FrameOverhead)
+	ps := pooled(n.Builder, len(data)+peering.FrameOffset+peering.FrameOverhead)
 	if ps == nil {
 		res.ParseErr = errors.New("frame too big for any pooled slice")
 		return res
@@ -360,7 +361,7 @@ var viewBuilder = frame.NewFrameBuilder()
 // View parses a copy of data for read-only inspection; the caller must call
 // ReturnToPool on the result.
 func View(data []byte) (frame.Frame, error) {
-	ps := viewBuilder.GetPooledSlice(len(data))
+	ps := pooled(viewBuilder, len(data))
 	if ps == nil {
 		return nil, errors.New("too big")
 	}
@@ -372,7 +373,7 @@ func View(data []byte) (frame.Frame, error) {
 // real switch handler. Frames the switch escalated to the router are returned
 // unhandled (the caller owns them and must release them).
 func (vn *Net) InjectSwitch(n *Node, recv *VLink, data []byte) (escalated []frame.Frame, err error) {
-	ps := n.Builder.GetPooledSlice(len(data) + peering.FrameOffset + peering.FrameOverhead)
+	ps := pooled(n.Builder, len(data)+peering.FrameOffset+peering.FrameOverhead)
 	if ps == nil {
 		return nil, errors.New("frame too big for any pooled slice")
 	}
@@ -396,4 +397,14 @@ func (vn *Net) InjectSwitch(n *Node, recv *VLink, data []byte) (escalated []fram
 			return escalated, err
 		}
 	}
+}
+
+// pooled gets a buffer the way the link reader does and holds the builder to
+// its contract: a buffer of at least the requested size, or none.
+func pooled(b *frame.Builder, n int) []byte {
+	ps := b.GetPooledSlice(n)
+	if ps != nil && len(ps) < n {
+		panic(core.CodeFault{Msg: fmt.Sprintf("the frame builder handed out a %d-byte buffer for a request of %d bytes (a received frame of that size cannot be parsed)", len(ps), n)})
+	}
+	return ps
 }
